@@ -703,6 +703,26 @@ func (m *Machine) setupModels() {
 		if cp.T.String() != "*"+schPkg+"."+typeName {
 			return misaligned("thrift decode of a different struct type")
 		}
+		// The real decoder assigns the fields that are on the wire and leaves the others of the receiver as they
+		// are: an optional field that is unset in the encoded struct keeps whatever the (possibly reused)
+		// receiver held before.
+		src, okS := deepCopy(cp.V).(Struct)
+		dst, okD := (*recv.P).(Struct)
+		if okS && okD && len(src) == len(dst) {
+			stT := m.namedType(schPkg, typeName).Underlying().(*types.Struct)
+			for i := range src {
+				if !strings.Contains(stT.Tag(i), "required") {
+					if p, isP := src[i].(Ptr); isP && p.P == nil {
+						continue
+					}
+					if sl, isS := src[i].(Slice); isS && sl.Nil {
+						continue
+					}
+				}
+				assign(&dst[i], src[i])
+			}
+			return nilErr()
+		}
 		assign(recv.P, deepCopy(cp.V))
 		return nilErr()
 	}}
